@@ -447,6 +447,21 @@ fn find_id_lookups() {
                 || report("resource", got.3, wr) || report("resolve_dataset_id", got.4, ws) || report("dataset", got.5, ws) { return; }
         }
     }
+    // ---- more items than the 16-bit handle types can number: the item is refused, or found by its own identifier
+    {
+        let mut store = AnnotationStore::default().with_dataset(AnnotationDataSetBuilder::new().with_id("d")).unwrap();
+        let h = store.dataset("d").unwrap().handle();
+        let set: &mut AnnotationDataSet = store.get_mut(h).unwrap();
+        let mut accepted = 0usize;
+        for i in 0..65538usize { if set.insert(DataKey::new(format!("k{}", i))).is_ok() { accepted += 1; } else { break; } }
+        let set = store.dataset("d").unwrap();
+        for i in [0usize, 1, 65535, 65536, 65537] {
+            let id = format!("k{}", i);
+            let got = set.key(id.as_str()).map(|k| k.as_str().to_string());
+            let want = if i < accepted { Some(id.clone()) } else { None };
+            if got != want { println!("WITNESS {{\"clause\":\"insert/full_refused\",\"history\":\"65538 keys inserted into one dataset, {} accepted\",\"lookup\":{:?},\"got\":\"{:?}\",\"want\":\"{:?}\"}}", accepted, id, got, want); return; }
+        }
+    }
     // ---- a temporary identifier inside a document names an item of that document: merging the document into a store
     //      that already holds items must not redirect it to whatever sits at that position in the receiving store
     let known = known_keys("find_id_lookups");
